@@ -128,6 +128,9 @@ class IOSuite(cc.ChanSuite):
                         fails.append(f"readline returned {r[1]!r} but consumed {seg!r}")
                     if not seg.endswith(le) or seg.find(le) != len(seg) - len(le):
                         fails.append(f"readline consumed {seg!r}: not exactly up to and including the first line ending {le!r}")
+                elif le in seg:
+                    # it did not return although the line ending had been consumed: it ran past the end of the line
+                    fails.append(f"readline(lineending={le!r}) gave {r!r} after consuming {seg!r}, which contains the line ending")
                 if any(c[1] != 1 for c in reads):
                     fails.append("readline asked the transport for more than one byte at a time")
             elif k == "set_blacklist":
